@@ -1,6 +1,7 @@
 /* Environment entry points that exist only in libstdc++/libc (no body in the IR): clock reads return ANY value
  * (callers that need monotonicity constrain it in the harness).  libmodel: natively the real library is linked. */
 #include "vll_rt.h"
-int64_t _ZNSt6chrono3_V212system_clock3nowEv(void){ return (int64_t)vnd_u64(); }
+int64_t vll_now_value; int vll_now_set;        /* a harness may pin what the clocks return */
+int64_t _ZNSt6chrono3_V212system_clock3nowEv(void){ return vll_now_set ? vll_now_value : (int64_t)vnd_u64(); }
 int64_t _ZNSt6chrono3_V212steady_clock3nowEv(void){ return (int64_t)vnd_u64(); }
 int getpid(void){ return 4242; }                 /* a concrete process id (a symbolic one makes std::to_string produce a symbolic-length string) */
